@@ -24,6 +24,10 @@ import re
 
 SP = '\u00b7'    # marker in corpus sources: one breakable space between two tokens (or indentation / trailing space)
 TB = '\u2192'    # marker: one breakable tab
+FF = '\u21a1'    # marker: one breakable form feed (\\x0c)
+VT = '\u21a7'    # marker: one breakable vertical tab (\\x0b)
+MARKS = SP + TB + FF + VT
+BLANKS = ' \t\x0b\x0c'   # what the scanner accepts as whitespace between tokens
 
 
 def mk(aux, indent, toks, gaps, pre, cont, trail, eol, cut):
@@ -40,10 +44,10 @@ def mk(aux, indent, toks, gaps, pre, cont, trail, eol, cut):
 
 
 def _ws(marks):
-    return marks.replace(SP, ' ').replace(TB, '\t')
+    return marks.replace(SP, ' ').replace(TB, '\t').replace(FF, '\x0c').replace(VT, '\x0b')
 
 
-_MARK_RUN = re.compile('[' + SP + TB + ']+')
+_MARK_RUN = re.compile('[' + MARKS + ']+')
 
 
 def corpus_line(src, eol):
@@ -51,12 +55,12 @@ def corpus_line(src, eol):
     m = _MARK_RUN.match(src)
     indent = _ws(m.group(0)) if m else ''
     rest = src[len(m.group(0)):] if m else src
-    m = re.search('[' + SP + TB + ']+$', rest)
+    m = re.search('[' + MARKS + ']+$', rest)
     trail = _ws(m.group(0)) if m else ''
     if m:
         rest = rest[:m.start()]
     if rest == '' or rest[0] == '#':
-        if SP in rest or TB in rest:
+        if any(c in rest for c in MARKS):
             raise ValueError('marker inside a comment: ' + src)
         return mk(True, indent, (rest,) if rest else (), (), '', False, trail, eol, False)
     toks, gaps = [], []
@@ -128,9 +132,9 @@ def scan_tokens(core):
             if j >= n:
                 return None
             i = j + 1
-        elif ch in ' \t':
+        elif ch in BLANKS:
             j = i
-            while j < n and core[j] in ' \t':
+            while j < n and core[j] in BLANKS:
                 j += 1
             toks.append(core[start:i])
             gaps.append(core[i:j])
@@ -146,9 +150,9 @@ def scan_tokens(core):
     return (toks, gaps)
 
 
-_LEAD = re.compile(r'^[ \t]*')
-_TRAILWS = re.compile(r'[ \t]*$')
-_CONT = re.compile(r'\\([ \t]*)$')
+_LEAD = re.compile(r'^[ \t\x0b\x0c]*')
+_TRAILWS = re.compile(r'[ \t\x0b\x0c]*$')
+_CONT = re.compile(r'\\([ \t\x0b\x0c]*)$')
 
 
 def scan_line(text, eol):
@@ -240,8 +244,16 @@ def canonical_text(state):
 INDENTS = ['', '  ', '\t']
 TRAILS = ['  ', '\t']
 INSERTS = [('', ''), ('', '# comment'), ('    ', '# comment'), ('', '# tail \\')]
-BREAK_TRAILS = ['', '  ']
 CONT_INDENT = '    '
+# How a line is broken at a whitespace gap: (keep the gap's whitespace before the backslash, indentation of the rest,
+# whitespace after the backslash). The parser joins the parts with one space, so the whitespace may be consumed entirely.
+BREAKS = [
+    (True, CONT_INDENT, ''),      # 0  tok<gap>\ / ....tok
+    (True, CONT_INDENT, '  '),    # 1  tok<gap>\.. / ....tok
+    (False, '', ''),              # 2  tok\ / tok           (tight: the break consumes the whitespace)
+    (True, '', ''),               # 3  tok<gap>\ / tok      (blank only before)
+    (False, CONT_INDENT, ''),     # 4  tok\ / ....tok       (blank only after)
+]
 
 
 def rewrites(state):
@@ -279,7 +291,7 @@ def rewrites(state):
     for i, ln in enumerate(lines):
         if not ln[0]:
             for g in range(len(ln[3])):
-                for v in range(len(BREAK_TRAILS)):
+                for v in range(len(BREAKS)):
                     out.append(['brk', i, g, v])
     return out
 
@@ -357,8 +369,9 @@ def apply(state, desc):
         g = desc[2]
         if ln[0] or not 0 <= g < len(ln[3]):
             return None
-        left = mk(False, ln[1], ln[2][:g + 1], ln[3][:g], ln[3][g], True, BREAK_TRAILS[desc[3]], ln[7] or '\n', False)
-        right = mk(False, CONT_INDENT, ln[2][g + 1:], ln[3][g + 1:], ln[4], ln[5], ln[6], ln[7], ln[8])
+        keep, indent, after = BREAKS[desc[3]]
+        left = mk(False, ln[1], ln[2][:g + 1], ln[3][:g], ln[3][g] if keep else '', True, after, ln[7] or '\n', False)
+        right = mk(False, indent, ln[2][g + 1:], ln[3][g + 1:], ln[4], ln[5], ln[6], ln[7], ln[8])
         new[i:i + 1] = [left, right]
         return (tuple(new), aslist)
     raise ValueError('unknown rewrite ' + repr(desc))
@@ -373,18 +386,18 @@ def apply_path(state, path):
 
 
 def break_gaps(state, i, subset, variant_of=lambda k: 0):
-    """Break line i at every gap index of `subset` (ascending) at once."""
+    """Break line i at every gap index of `subset` (ascending) at once; variant_of(k) selects the BREAKS entry of the k-th break."""
     lines, aslist = state
     ln = lines[i]
     parts = []
     start = 0
-    cuts = sorted(subset)
-    for k, g in enumerate(cuts):
-        first = not parts
-        parts.append(mk(False, ln[1] if first else CONT_INDENT, ln[2][start:g + 1], ln[3][start:g], ln[3][g], True,
-                        BREAK_TRAILS[variant_of(k)], ln[7] or '\n', False))
+    indent = ln[1]
+    for k, g in enumerate(sorted(subset)):
+        keep, nxt, after = BREAKS[variant_of(k)]
+        parts.append(mk(False, indent, ln[2][start:g + 1], ln[3][start:g], ln[3][g] if keep else '', True, after, ln[7] or '\n', False))
+        indent = nxt
         start = g + 1
-    parts.append(mk(False, ln[1] if not parts else CONT_INDENT, ln[2][start:], ln[3][start:], ln[4], ln[5], ln[6], ln[7], ln[8]))
+    parts.append(mk(False, indent, ln[2][start:], ln[3][start:], ln[4], ln[5], ln[6], ln[7], ln[8]))
     new = list(lines)
     new[i:i + 1] = parts
     return (tuple(new), aslist)
@@ -683,6 +696,54 @@ endfunction
 '''),
 ]
 
+# whitespace other than blank and tab between tokens; characters that str.splitlines() takes for line boundaries but the
+# documented splitter (LF / CRLF) does not, inside literals, names, include targets and comments
+HAND += [
+    _p('formfeed-gaps', '''
+a↡=↡1↡+·2
+if↡a↧:
+↡b·=↧ff(↡a↡,↧'x y'↡)↧
+endif↡
+'''),
+    _p('vtab-gaps', '''
+function↧gg(↧p↡,↧q↡...↧)↧:
+↧return↧p
+endfunction
+for↡v↧,↡i↧in↡gg(↡1↧)↡:
+endfor
+'''),
+    _p('linebreak-chars-1', '''
+s·=·'a\rb'
+t·=·"x\x0by\x0cz"
+ff(·'\x0c'·,·[n\x0bm]·)
+return·s
+'''),
+    _p('linebreak-chars-2', '''
+s·=·'a\x1cb\x1dc'
+include·'p\x1eq'
+u·=·"\x85"·+·'\x85\x85'
+# c\x85d\x0ce
+return·u
+'''),
+    _p('linebreak-chars-3', '''
+s·=·'a\u2028b'
+if·s·==·"\u2029"·:
+····jump·end
+endif
+end:
+'''),
+    _p('linebreak-chars-continued', '''
+msg·=·'l1\x0cl2'·+·\\
+····"l3\u2028l4"·+·\\
+····'l5\rl6'
+'''),
+    _p('cr-in-string-crlf', '''
+s·=·'a\rb'
+t·=·'\r'
+include·<d\rir/x.bare>
+''', eol='\r\n'),
+]
+
 # generator-built: every statement wrapper x every expression template
 _EXPRS = [
     ("ff(·a·,·'b c'·)·+·1", 'call'),
@@ -749,3 +810,31 @@ VALID_EXPRS = [
 INVALID_EXPRS = [
     '', ' ', '1 +', '+', '(1', '1)', 'ff(1,', 'ff(1 2)', "'abc", '"abc', '[abc', '1 2', 'a b', '* 3', 'ff(,)', '1e5', '&& a', 'a ||', '()', '#',
 ]
+
+# Near-duplicates: texts that differ only inside a literal / a name / an include target / a comment (amount or kind of
+# whitespace, letter case, quote style). A parser that keeps results keyed on a normalised text would confuse them.
+NEAR_SCRIPTS = [
+    "x = 'a  b'\n", "x = 'a b'\n", "x = 'a\tb'\n", "x = 'A b'\n", 'x = "a b"\n', "x = 'a\\\"b'\n", 'x = "a\\"b"\n',
+    "y = 1\n# note one\n", "y = 1\n# note two\n", "y = 1\n# y = 2\n", "y = 1\ny = 2\n",
+    "s = '# c1'\n", "s = '# c2'\n",
+    "include 'a  b.bare'\n", "include 'a b.bare'\n", "include <a  b.bare>\n", "include <a b.bare>\n", "include <A b.bare>\n",
+    "z = [p  q]\n", "z = [p q]\n", "z = [P q]\n",
+    "if x == 'a  b':\n    r = 1\nendif\n", "if x == 'a b':\n    r = 1\nendif\n",
+    "return 'x'  \n", "return 'x '\n", "return ' x'\n",
+]
+NEAR_CHUNKED = [
+    ["x = 'a  b'"], ["x = 'a b'"], ["y = 1", "# y = 2"], ["y = 1", "y = 2"],
+]
+NEAR_EXPRS = [
+    "'a  b'", "'a b'", "'a\tb'", "'A b'", '"a b"', "'a\\\"b'", '"a\\"b"', "[p  q]", "[p q]", "[P q]",
+    "ff('a  b', 1)", "ff('a b', 1)", "ff ( 'a b' , 1 )", "FF('a b', 1)", "abc", "Abc", "' x'", "'x '", "'x'",
+]
+
+
+def normalised(text):
+    """A deliberately lossy normal form (letter case, all whitespace, quote style, comment lines removed) - only used to
+    count how many enumerated pairs are near-duplicates."""
+    if isinstance(text, list):
+        text = '\n'.join(text)
+    lines = [ln for ln in text.split('\n') if not ln.strip().startswith('#')]
+    return ''.join(''.join(lines).split()).lower().replace('"', "'")
